@@ -94,7 +94,12 @@ def prefix(tokeniser: 'Tokeniser') -> IPRange:
 def path_information(tokeniser: 'Tokeniser') -> PathInfo:
     pi = tokeniser()
     if pi.isdigit():
-        return PathInfo.make_from_integer(int(pi))
+        number = int(pi)
+        # RFC 7911: the path identifier is a four-octet field; a larger number was masked byte by byte
+        # (4294967296 was sent as 0) instead of being refused
+        if number > 0xFFFFFFFF:
+            raise ValueError(f"'{pi}' is not a valid path-information\n  Must fit in 32 bits (0-4294967295)")
+        return PathInfo.make_from_integer(number)
     return PathInfo.make_from_ip(pi)
 
 
@@ -356,10 +361,12 @@ def _community(value: str) -> Community:
 
         prefix_int, suffix_int = int(prefix), int(suffix)
 
-        if prefix_int > Community.MAX:
+        # RFC 1997: <high>:<low> are two 16-bit halves. They were compared with the maximum of the whole
+        # 32-bit value, so 65536:1 escaped as struct.error and 1:65536 was sent as 2:0
+        if prefix_int > 0xFFFF:
             raise ValueError('invalid community {} (prefix too large)'.format(value))
 
-        if suffix_int > Community.MAX:
+        if suffix_int > 0xFFFF:
             raise ValueError('invalid community {} (suffix too large)'.format(value))
 
         return Community(pack('!L', (prefix_int << 16) + suffix_int))
